@@ -162,7 +162,7 @@ func init() {
 		return nil
 	})
 	reg(zz+"Known", func(ex *Exec, _ *frame, _ *ssa.Function, a []Value) Value {
-		return ex.mkBool(ex.run.cfg.Known[ex.concStr(a[0], "class")])
+		return ex.mkBool(knownClass(ex.run.cfg.Known, ex.concStr(a[0], "class")))
 	})
 	reg(zz+"Engine", func(ex *Exec, _ *frame, _ *ssa.Function, a []Value) Value { return ex.ts.True })
 	reg(zz+"PendingTasks", func(ex *Exec, _ *frame, _ *ssa.Function, a []Value) Value {
@@ -762,3 +762,16 @@ func pathClean(p string) string {
 }
 
 var _ = strconv.Itoa
+
+// knownClass: exact match, or a listed pattern ending in '*' (triage runs only; known_findings.json lists exact names).
+func knownClass(known map[string]bool, cls string) bool {
+	if known[cls] {
+		return true
+	}
+	for k := range known {
+		if n := len(k); n > 0 && k[n-1] == '*' && len(cls) >= n-1 && cls[:n-1] == k[:n-1] {
+			return true
+		}
+	}
+	return false
+}
